@@ -28,6 +28,9 @@ func runC08(c *Ctx) {
 	c.equalityReadsDataOnly("C08.2")
 	c.revisionChoice()
 	c.createLoop()
+	// the history the update revision is looked up in (and renumbered against) holds every listed revision that is
+	// this set's or nobody's (the lister rules of C13/C10, as clauses of this property)
+	c.withOnly(map[string]string{"C08.3h-owner-filter": "C08.3-history-owner-filter", "C08.3h-unowned-revisions-are-kept": "C08.3-history-keeps-unowned-revisions"}, nil, "C08.3-history-lister", 2, func() { c.listerFilters("C08.3h", "C08.3h-dedup") })
 	// the revision a rollback re-uses (and every revision this reconcile chose) survives history truncation:
 	// the truncation rules of C13 (live set seeded with the computed current and update revisions,
 	// only non-live revisions beyond the limit are deleted)
